@@ -3,7 +3,7 @@
  * implementation (i15, i31, i32, i62, default).
  *
  * Differential / model-based monitor: every br_rsa_* entry point is run on
- * fixture keys (fixtures/rsa/*.der) and on keys made by br_rsa_*_keygen, and
+ * fixture keys (fixtures/rsa/k*.der) and on keys made by br_rsa_xx_keygen, and
  * each result is judged against OpenSSL libcrypto (BIGNUM, RSA_sign, EVP
  * PSS/OAEP) or against a spec-level model written here (RFC 8017 encodings).
  *
@@ -163,20 +163,20 @@ init_impls(void)
 	m->kg = br_rsa_i31_keygen; m->cmod = br_rsa_i31_compute_modulus;
 	m->cpub = br_rsa_i31_compute_pubexp; m->cpriv = br_rsa_i31_compute_privexp;
 
-	m = &IMPLS[2]; m->name = "i32"; m->cost = 100;
+	m = &IMPLS[2]; m->name = "i32"; m->cost = 40;
 	m->pub = br_rsa_i32_public; m->priv = br_rsa_i32_private;
 	m->vrfy = br_rsa_i32_pkcs1_vrfy; m->sign = br_rsa_i32_pkcs1_sign;
 	m->pvrfy = br_rsa_i32_pss_vrfy; m->psign = br_rsa_i32_pss_sign;
 	m->oenc = br_rsa_i32_oaep_encrypt; m->odec = br_rsa_i32_oaep_decrypt;
 
-	m = &IMPLS[3]; m->name = "i62"; m->cost = 15;
+	m = &IMPLS[3]; m->name = "i62"; m->cost = 12;
 	m->pub = br_rsa_i62_public_get(); m->priv = br_rsa_i62_private_get();
 	m->vrfy = br_rsa_i62_pkcs1_vrfy_get(); m->sign = br_rsa_i62_pkcs1_sign_get();
 	m->pvrfy = br_rsa_i62_pss_vrfy_get(); m->psign = br_rsa_i62_pss_sign_get();
 	m->oenc = br_rsa_i62_oaep_encrypt_get(); m->odec = br_rsa_i62_oaep_decrypt_get();
 	m->kg = br_rsa_i62_keygen_get();
 
-	m = &IMPLS[4]; m->name = "default"; m->cost = 15;
+	m = &IMPLS[4]; m->name = "default"; m->cost = 12;
 	m->pub = br_rsa_public_get_default(); m->priv = br_rsa_private_get_default();
 	m->vrfy = br_rsa_pkcs1_vrfy_get_default(); m->sign = br_rsa_pkcs1_sign_get_default();
 	m->pvrfy = br_rsa_pss_vrfy_get_default(); m->psign = br_rsa_pss_sign_get_default();
@@ -436,10 +436,12 @@ alt_byte(unsigned char v, unsigned kind)
 	}
 }
 
+static void shuffle(size_t *a, size_t n);
+
 /* choose up to max positions in [0,len): all of them if len <= max, else the
    "must" positions first and random ones for the rest. Returns the count. */
 static size_t
-pick_positions(size_t *pos, size_t len, size_t max, const size_t *must, size_t nmust)
+pick_positions(size_t *pos, size_t len, size_t max, size_t *must, size_t nmust)
 {
 	unsigned char *mark;
 	size_t n = 0, u;
@@ -449,6 +451,7 @@ pick_positions(size_t *pos, size_t len, size_t max, const size_t *must, size_t n
 	}
 	mark = xmalloc(len);
 	memset(mark, 0, len);
+	shuffle((size_t *)must, nmust);
 	for (u = 0; u < nmust && n < max; u ++) {
 		if (must[u] < len && !mark[must[u]]) { mark[must[u]] = 1; pos[n ++] = must[u]; }
 	}
@@ -460,14 +463,37 @@ pick_positions(size_t *pos, size_t len, size_t max, const size_t *must, size_t n
 	return n;
 }
 
+/* allowance of optional (negative-case) private operations of the current unit */
+static long g_allow;
+
+static int
+spend(void)
+{
+	if (g_allow > 0) { g_allow --; return 1; }
+	vf_stat("optional_skipped_budget", 1);
+	return 0;
+}
+
+static void
+shuffle(size_t *a, size_t n)
+{
+	size_t i;
+	for (i = n; i > 1; i --) {
+		size_t j = vf_below(&R, (uint32_t)i), t = a[i - 1];
+		a[i - 1] = a[j]; a[j] = t;
+	}
+}
+
 /* iteration budget: `g_cases` 512-bit-i15-private-op units, scaled by the cube
    (private) or square (public) of the size and the implementation speed */
 static long
 budget(const rkey *k, const impl_t *m, int priv, long lo, long hi)
 {
 	double s = (double)k->bits / 512.0;
-	double w = priv ? s * s * s : s * s * (double)(k->ebits < 8 ? 8 : k->ebits) / 600.0;
-	double b = (double)g_cases * 100.0 / ((double)m->cost * w);
+	/* public: one verification here + one forging (native OpenSSL private op) */
+	double w = priv ? s * s * s * (double)m->cost / 100.0
+		: s * s * (double)(k->ebits < 8 ? 8 : k->ebits) / 600.0 * (double)m->cost / 100.0 + s * s * s / 100.0;
+	double b = (double)g_cases / w;
 	long r = (long)b;
 	if (r < lo) r = lo;
 	if (r > hi) r = hi;
@@ -481,7 +507,7 @@ budget(const rkey *k, const impl_t *m, int priv, long lo, long hi)
 static void
 sec_raw(const rkey *k, const impl_t *m)
 {
-	long np = budget(k, m, 1, 4, g_tier ? 400 : 40);
+	long np = budget(k, m, 1, 3, g_tier ? 400 : 40);
 	long j;
 	size_t nlen = k->nlen;
 	unsigned char *x = xmalloc(nlen), *rp = xmalloc(nlen), *rs = xmalloc(nlen);
@@ -638,10 +664,13 @@ sec_raw(const rkey *k, const impl_t *m)
 		uint32_t r;
 		int v;
 
+		g_allow = budget(k, m, 1, 3, 6);
 		for (v = 0; v < 2; v ++) {
 			/* p' = p - 1 (even) or q' = q - 1; n' = p'q'; x < n' */
 			BIGNUM *pp = BN_dup(k->p), *qq = BN_dup(k->q), *nn = BN_new(), *xx = BN_new();
 			size_t l, xl;
+			if (g_allow < 5 && v != (int)((g_seed + (unsigned)g_unit) & 1)) { BN_free(pp); BN_free(qq); BN_free(nn); BN_free(xx); continue; }
+			if (!spend()) { BN_free(pp); BN_free(qq); BN_free(nn); BN_free(xx); continue; }
 			mk_sk(&sv, k, 0, NULL);
 			if (v == 0) { BN_sub_word(pp, 1); free(sv.sk.p); sv.sk.p = bn_buf(pp, 0, &l); sv.sk.plen = l; }
 			else { BN_sub_word(qq, 1); free(sv.sk.q); sv.sk.q = bn_buf(qq, 0, &l); sv.sk.qlen = l; }
@@ -663,16 +692,20 @@ sec_raw(const rkey *k, const impl_t *m)
 		}
 		mk_sk(&sv, k, 0, NULL);
 		b = xmalloc(nlen);
-		BN_bn2binpad(k->n, b, (int)nlen);
-		r = m->priv(b, &sv.sk);
-		vf_stat("unjudged_priv_x_ge_n", 1);
-		vf_stat(r ? "unjudged_priv_x_ge_n_ret1" : "unjudged_priv_x_ge_n_ret0", 1);
-		memset(b, 0xFF, nlen);
-		r = m->priv(b, &sv.sk);
-		vf_stat("unjudged_priv_x_ge_n", 1);
-		vf_stat(r ? "unjudged_priv_x_ge_n_ret1" : "unjudged_priv_x_ge_n_ret0", 1);
+		if (spend()) {
+			BN_bn2binpad(k->n, b, (int)nlen);
+			r = m->priv(b, &sv.sk);
+			vf_stat("unjudged_priv_x_ge_n", 1);
+			vf_stat(r ? "unjudged_priv_x_ge_n_ret1" : "unjudged_priv_x_ge_n_ret0", 1);
+		}
+		if (spend()) {
+			memset(b, 0xFF, nlen);
+			r = m->priv(b, &sv.sk);
+			vf_stat("unjudged_priv_x_ge_n", 1);
+			vf_stat(r ? "unjudged_priv_x_ge_n_ret1" : "unjudged_priv_x_ge_n_ret0", 1);
+		}
 		/* n_bitlen off by one but same byte length */
-		if ((k->bits & 7) != 1 && (k->bits & 7) != 0) {
+		if ((k->bits & 7) != 1 && (k->bits & 7) != 0 && g_allow >= 2) {
 			rand_below_n(k, b);
 			b[0] = 0;
 			sv.sk.n_bitlen = (uint32_t)k->bits - 1;
@@ -1259,7 +1292,6 @@ sec_oaep(const rkey *k, const impl_t *m)
 {
 	size_t nlen = k->nlen;
 	long ncombo = budget(k, m, 1, 2, g_tier ? 60 : 10);
-	long npos = budget(k, m, 1, 6, g_tier ? 600 : 48);
 	long it, nfit = 0;
 	pkv pv, pz;
 	unsigned char *ct = xmalloc(nlen), *em = xmalloc(nlen), *em2 = xmalloc(nlen), *db = xmalloc(nlen),
@@ -1271,8 +1303,9 @@ sec_oaep(const rkey *k, const impl_t *m)
 	mk_pk(&pv, k, 0, 0);
 	mk_pk(&pz, k, 1 + vf_below(&R, 3), vf_below(&R, 2));
 	drbg_init(&dc);
+	g_allow = budget(k, m, 1, 5, g_tier ? 900 : 60);
 	for (it = 0; it < ncombo; it ++) {
-		const hdesc *h = &HASHES[(unsigned)((unsigned long)it + (unsigned)g_unit) % NHASH];
+		const hdesc *h = &HASHES[(unsigned)((unsigned long)it + (unsigned)g_unit + g_seed) % NHASH];
 		size_t hl = h->hlen;
 		long maxm = (long)nlen - 2 * (long)hl - 2;
 		unsigned char label[64], seed[64];
@@ -1396,9 +1429,12 @@ sec_oaep(const rkey *k, const impl_t *m)
 			unsigned char l2[65];
 			unsigned char *b = xmalloc(nlen + 1);
 			memcpy(l2, label, llen);
-			if (llen == 0) { l2[0] = 0; CMP("oaep_strict_label");
+			if (nfit > 1 && g_allow < 8) {
+				/* no budget for the wrong-label private operation */
+			} else if (!spend()) {
+			} else if (llen == 0) { l2[0] = 0; CMP("oaep_strict_label");
 				oaep_check_dec(m, &sv.sk, ct, nlen, h, l2, 1, 0, NULL, 0, "C10:strict:oaep-wrong-label", "oaep_decrypt accepted with another label");
-			} else if (it % 3 == 0) { l2[vf_below(&R, (uint32_t)llen)] ^= 0x40; CMP("oaep_strict_label");
+			} else { l2[vf_below(&R, (uint32_t)llen)] ^= 0x40; CMP("oaep_strict_label");
 				oaep_check_dec(m, &sv.sk, ct, nlen, h, l2, llen, 0, NULL, 0, "C10:strict:oaep-wrong-label", "oaep_decrypt accepted with another label");
 			}
 			CMP("oaep_strict_len");
@@ -1412,8 +1448,8 @@ sec_oaep(const rkey *k, const impl_t *m)
 		/* encodings altered before masking (structure) and after masking (any byte):
 		   expectation from the RFC 8017 decoding model */
 		if (nfit <= 3 || g_tier) {
-			size_t dbl = nlen - hl - 1, u, np_, nstruct;
-			long quota = npos / (ncombo < 3 ? ncombo : 3);
+			size_t dbl = nlen - hl - 1, u, np_, nstruct, uu;
+			long quota = g_allow / (nfit <= 1 ? 2 : 1);
 			vf_bytes(&R, seed, hl);
 			ref_oaep_db(db, nlen, h, label, llen, msg, mlen);
 			ref_oaep_mask(em, nlen, h, 0, seed, db);
@@ -1425,12 +1461,17 @@ sec_oaep(const rkey *k, const impl_t *m)
 					HARNESS_FAIL("oaep-encoder-vs-openssl");
 				EVP_PKEY_CTX_free(c);
 			}
-			CMP("oaep_decrypt_own_encoding");
-			oaep_check_dec(m, &sv.sk, ct, nlen, h, label, llen, 1, msg, mlen, "C10:oaep:decrypt-rfc8017-encoding", "oaep_decrypt rejects a valid RFC 8017 EME-OAEP encoding");
+			if (g_allow >= 8 && spend()) {
+				CMP("oaep_decrypt_own_encoding");
+				oaep_check_dec(m, &sv.sk, ct, nlen, h, label, llen, 1, msg, mlen, "C10:oaep:decrypt-rfc8017-encoding", "oaep_decrypt rejects a valid RFC 8017 EME-OAEP encoding");
+			}
 			/* structural alterations of the unmasked block */
 			nstruct = 7;
-			for (u = 0; u < nstruct; u ++) {
-				unsigned char y = 0, *d2 = vf_dup(db, dbl);
+			for (uu = 0; uu < nstruct; uu ++) {
+				unsigned char y = 0, *d2;
+				u = (uu + (size_t)g_seed + (size_t)g_unit / NIMPL + (size_t)it * 3) % nstruct;
+				if ((long)uu >= (quota + 1) / 2 || !spend()) break;
+				d2 = vf_dup(db, dbl);
 				size_t pslen = dbl - hl - 1 - mlen, ml2 = 0;
 				int exp;
 				const char *kind;
@@ -1462,10 +1503,11 @@ sec_oaep(const rkey *k, const impl_t *m)
 				size_t must[8], nm = 0;
 				must[nm ++] = 0; must[nm ++] = 1; must[nm ++] = hl; must[nm ++] = hl + 1;
 				must[nm ++] = 2 * hl; must[nm ++] = 2 * hl + 1; must[nm ++] = nlen - 1; must[nm ++] = nlen - 1 - mlen;
-				np_ = pick_positions(pos, nlen, (size_t)(quota > 7 ? quota - 7 : 1), must, nm);
+				np_ = pick_positions(pos, nlen, (size_t)(quota / 2 > 0 ? quota / 2 : 1), must, nm);
 				for (u = 0; u < np_; u ++) {
 					size_t ml2 = 0;
 					int exp;
+					if (!spend()) break;
 					memcpy(em2, em, nlen);
 					em2[pos[u]] = alt_byte(em[pos[u]], (unsigned)(u + (size_t)it));
 					if (!forge_pub(k, ct, em2)) { vf_stat("forge_skipped_ge_n", 1); continue; }
@@ -1526,7 +1568,6 @@ sec_tls(const rkey *k, const impl_t *m)
 {
 	size_t nlen = k->nlen, u;
 	long nenc = budget(k, m, 1, 2, g_tier ? 40 : 6) / 2 + 1;
-	long npos = budget(k, m, 1, 6, g_tier ? 600 : 48);
 	long it;
 	unsigned char *ct = xmalloc(nlen), *em = xmalloc(nlen), *em2 = xmalloc(nlen);
 	size_t *pos = xmalloc((nlen + 1) * sizeof *pos);
@@ -1568,17 +1609,22 @@ sec_tls(const rkey *k, const impl_t *m)
 	{
 		skv sv;
 		size_t must[64], nm = 0, np_;
-		int v;
+		int v, vv;
+		g_allow = budget(k, m, 1, 5, g_tier ? 700 : 60);
 		mk_sk(&sv, k, 0, NULL);
 		em[0] = 0; em[1] = 2;
 		for (u = 2; u < nlen - 49; u ++) em[u] = (unsigned char)vf_range(&R, 1, 255);
 		em[nlen - 49] = 0;
 		vf_bytes(&R, em + nlen - 48, 48);
 		if (!forge_pub(k, ct, em)) HARNESS_FAIL("tls-em-ge-n");
-		CMP("tls_decrypt_own_encoding");
-		tls_check(m, &sv.sk, ct, nlen, 1, em + nlen - 48, "C10:tls:decrypt-own-encoding", "br_rsa_ssl_decrypt rejects a valid type-2 block");
+		if (g_allow >= 8 && spend()) {
+			CMP("tls_decrypt_own_encoding");
+			tls_check(m, &sv.sk, ct, nlen, 1, em + nlen - 48, "C10:tls:decrypt-own-encoding", "br_rsa_ssl_decrypt rejects a valid type-2 block");
+		}
 		/* payload of 47 / 49 / 0 bytes, separator missing */
-		for (v = 0; v < 4; v ++) {
+		for (vv = 0; vv < 4; vv ++) {
+			v = (int)(((unsigned)vv + (unsigned)g_seed + (unsigned)g_unit / NIMPL) & 3);
+			if ((vv >= 1 && g_allow < 6) || !spend()) break;
 			memcpy(em2, em, nlen);
 			switch (v) {
 			case 0: em2[nlen - 49] = (unsigned char)vf_range(&R, 1, 255); em2[nlen - 48] = 0; break;
@@ -1593,9 +1639,10 @@ sec_tls(const rkey *k, const impl_t *m)
 		for (u = 0; u < 12; u ++) must[nm ++] = u;
 		for (u = nlen - 52; u < nlen - 44; u ++) must[nm ++] = u;
 		must[nm ++] = nlen - 1;
-		np_ = pick_positions(pos, nlen, (size_t)npos, must, nm);
+		np_ = pick_positions(pos, nlen, (size_t)(g_allow > 0 ? g_allow : 1), must, nm);
 		for (u = 0; u < np_; u ++) {
 			int exp;
+			if (!spend()) break;
 			memcpy(em2, em, nlen);
 			/* in the PS region alternate between zeroing (must reject) and another non-zero value */
 			em2[pos[u]] = alt_byte(em[pos[u]], (pos[u] >= 2 && pos[u] < nlen - 49) ? (unsigned)(2 + (u & 1) * 2) : (unsigned)u);
